@@ -73,6 +73,7 @@ class Directive:
         self.proofs = []     # (regex, text, occurrence)
         self.rewrites = []   # (regex, repl)
         self.body_replace = None
+        self.cut = None      # (regex, tail_text)
 
 
 def parse_directive(text):
@@ -90,6 +91,9 @@ def parse_directive(text):
             d.spec = val
         elif key.startswith("loop "):
             d.loops[int(key.split()[1])] = val
+        elif key.startswith("cut after "):
+            m = re.match(r"cut after /(.*)/$", key)
+            d.cut = (m.group(1), val)
         elif key.startswith("proof after "):
             m = re.match(r"proof after (?:#(\d+) )?/(.*)/$", key)
             if not m:
@@ -115,7 +119,7 @@ def parse_directive(text):
             if m:
                 d.rewrites.append((m.group(2), m.group(3), m.group(1) == "?"))
                 continue
-            m = re.match(r"^@(spec|loop \d+|proof after (?:#\d+ )?/.*/)\s*$", ln)
+            m = re.match(r"^@(spec|loop \d+|proof after (?:#\d+ )?/.*/|cut after /.*/)\s*$", ln)
             if m:
                 key = m.group(1)
                 continue
@@ -223,6 +227,15 @@ def expand_fn_real(d: Directive, stats, stub):
         rt_end = mw.start() if mw else len(rest)
         rt = rest[:rt_end].strip()
         sig = sig[:m.end()] + f"({d.ret}: {rt})\n" + ("    " + rest[rt_end:] if mw else "")
+    # declared cut: keep the body up to (and including) the line matching the regex, replace the rest
+    if d.cut:
+        mc = re.search(d.cut[0], body, re.M)
+        if not mc:
+            raise BodyAnchorLost(f"{d.fn}: cut anchor /{d.cut[0]}/ not found")
+        eol = body.find("\n", mc.end())
+        dropped = body[eol + 1:]
+        info["cut"] = dict(after=d.cut[0], dropped_lines=dropped.count("\n"))
+        body = body[:eol + 1] + d.cut[1] + "\n}\n"
     # loops & proofs in body
     body = insert_loops(body, d.loops)
     # ghost insertions: all anchors are resolved on the body *before* any insertion
@@ -249,10 +262,14 @@ def expand_fn_real(d: Directive, stats, stub):
 
 def expand_item(kind, text, stats):
     kv = {}
+    item_rewrites = []
     for ln in text.splitlines():
         m = re.match(r"^@(file|name|nth)\s+(.*?)\s*$", ln)
+        mr = re.match(r"^@rewrite /(.*)/ => (.*)$", ln)
         if m:
             kv[m.group(1)] = m.group(2)
+        elif mr:
+            item_rewrites.append((mr.group(1), mr.group(2)))
         elif ln.strip():
             raise ValueError(f"vextract: bad {kind} directive line {ln!r}")
     path = os.path.join(REPO, kv["file"])
@@ -279,8 +296,14 @@ def expand_item(kind, text, stats):
         t = re.sub(r"^[ \t]*//[^\n]*\n", "", t, flags=re.M)
         t = re.sub(r"^([ \t]+)(?:pub(?:\s*\([^)]*\))?\s+)?([a-z_][A-Za-z0-9_]*\s*:)", r"\1pub \2", t, flags=re.M)
         out = t
+    rw = {"visibility->pub": 1}
+    for rx, repl in item_rewrites:
+        out, n = re.subn(rx, repl, out)
+        if n == 0:
+            raise rsx.LostAnchor(f"{kind} {kv['name']}: declared rewrite /{rx}/ matched nothing")
+        rw["unit:" + rx] = n
     stats.append(dict(file=kv["file"], item=kind + " " + kv["name"], line=h["line"], sha256=rsx.sha(h["text"]),
-                      bytes=len(h["text"]), rewrites={"visibility->pub": 1}, drops={}))
+                      bytes=len(h["text"]), rewrites=rw, drops={}))
     return out
 
 
